@@ -142,6 +142,8 @@ struct State {
     log: Vec<ReqLog>,
     versions: Vec<VersionRec>,
     deletes: Vec<DeleteRec>,
+    /// every attempted upload of a *.parquet object (any outcome): (node, path, payload)
+    attempts: Vec<(u32, String, Bytes)>,
     dead: BTreeSet<u32>,
     next_id: u64,
     node_seq: BTreeMap<u32, u64>,
@@ -280,6 +282,9 @@ impl SimCore {
     }
     pub fn versions_of(&self, suffix: &str) -> Vec<VersionRec> {
         self.st.lock().versions.iter().filter(|v| v.path.ends_with(suffix)).cloned().collect()
+    }
+    pub fn attempts(&self) -> Vec<(u32, String, Bytes)> {
+        self.st.lock().attempts.clone()
     }
     pub fn deletes(&self) -> Vec<DeleteRec> {
         self.st.lock().deletes.clone()
@@ -644,6 +649,9 @@ impl ObjectStore for NodeStore {
             PutMode::Update(v) => format!("update:{}", v.e_tag.clone().unwrap_or_default()),
         };
         let data: Bytes = payload.into();
+        if location.as_ref().ends_with(".parquet") {
+            self.core.st.lock().attempts.push((self.node, location.to_string(), data.clone()));
+        }
         let mode = opts.mode.clone();
         let attrs = opts.attributes.clone();
         self.request(self.desc(OpKind::Put, location, detail), |id| {
